@@ -143,6 +143,16 @@ class St:
                     r = True if any(p is True for p in parts) else (False if all(p is False for p in parts) else None)
                 if r is not None and r != v:
                     return None
+        # unit propagation: `a and b` known false with a known true leaves b false (and dually for `or`)
+        for k, v in list(st.facts.items()):
+            if k[0] == 'boolop' and ((k[1] == 'and' and v is False) or (k[1] == 'or' and v is True)):
+                want = (k[1] == 'and')
+                unknown = [x for x in k[2] if truth(x, st) is None]
+                if len(unknown) == 1 and all(truth(x, st) is want for x in k[2] if x is not unknown[0]):
+                    st2 = st.assume(unknown[0], not want)
+                    if st2 is None:
+                        return None
+                    st = st2
         # the emptiness of a filtered collection speaks about all its candidates:
         #   not [x for x in S if c(x)]   <=>   for all x in S: not c(x)
         if term[0] == 'comp' and len(term) == 4 and len(term[3]) == 1 and term[3][0][2] \
@@ -897,6 +907,9 @@ class Interp:
                 if y is None:
                     continue
                 added = [k for k in y.facts if k not in x.facts]
+                if getattr(self.an, 'keep_type_facts', False):
+                    # what an object *is* does not change: isinstance facts may survive the join
+                    added = [k for k in added if not (k[0] == 'call' and k[1] == 'isinstance')]
                 if not body:
                     sides.append((added, [y]))
                     continue
@@ -1094,6 +1107,26 @@ class Interp:
             return self.x_For(synth, st, fr)
         o = Out()
         for x, it in self.eval(s.iter, st, fr, o):
+            if it[0] in ('tuple', 'list') and isinstance(s.iter, (ast.Tuple, ast.List)) and 1 <= len(it[1]) <= 4 \
+                    and not s.orelse and not any(isinstance(n, ast.Break) for b in s.body for n in ast.walk(b)):
+                # a loop over a small literal table: one pass per entry, in order
+                states = [x]
+                for item in it[1]:
+                    nxt = []
+                    for y in states:
+                        for b in self.assign(s.target, item, y, fr, o, s):
+                            r = self.exec_block(s.body, [b], fr)
+                            nxt += r.nxt + r.cont
+                            o.ret += r.ret
+                            o.exc += r.exc
+                    states = dedup(nxt)
+                o.nxt += states
+                continue
+            if it[0] == 'gen':
+                done = self._for_over_gen(s, it, x, fr, o)
+                if done is not None:
+                    o.nxt += done
+                    continue
             if _one_shot(it):
                 if it in (x.a('spent') or ()):
                     # a generator that has been run to its end yields nothing more
@@ -1972,11 +2005,60 @@ class Interp:
     def e_Yield(self, e, st, fr, o):
         res = []
         vals = self.eval(e.value, st, fr, o) if e.value is not None else [(st, T.NONE)]
+        sinks = self.__dict__.get('_ysinks') or []
         for x, t in vals:
+            sink = next((sk for sk in reversed(sinks) if sk[0] is fr.func and sk[1] == fr.depth), None)
+            if sink is not None:
+                # the generator is being run by a `for` loop of its caller: the loop body is executed here
+                for y in sink[2](x, t):
+                    res.append((y, T.NONE))
+                continue
             y = self.an.on_yield(self, e, t, x, fr)
             if y is not None:
                 res.append((y, ('unk', 'sent')))
         return res
+
+    def run_generator(self, it, x, fr, o, node, on_item):
+        """walk the body of the package generator `it` (a ('gen', qualname, bindings) term) in a callee frame,
+        calling on_item(state, yielded term) -> [states] at each of its yields; returns the final states or None"""
+        f = self.prog.funcs.get(it[1])
+        if f is None or not f.is_generator or fr.depth >= self.an.max_inline or f.qualname in fr.stack:
+            return None
+        sinks = self.__dict__.setdefault('_ysinks', [])
+        sinks.append((f, fr.depth + 1, on_item))
+        try:
+            res = self.inline(f, None, (), (), None, x, fr, o, node, bindings=it[2])
+        finally:
+            sinks.pop()
+        return [y for y, _v in res]
+
+    def _for_over_gen(self, s, it, x, fr, o):
+        """`for v in self._private_generator(...): body` -- the generator's body is walked in a callee frame, and
+        at each of its yields the loop body is executed (in the caller's frame) with v bound to what is yielded.
+        Only for bodies without break / else; returns the states that leave the loop, or None"""
+        f = self.prog.funcs.get(it[1])
+        if f is None or not f.is_generator or s.orelse or fr.depth >= self.an.max_inline or f.qualname in fr.stack \
+                or not (f.name.startswith('_') and not f.name.startswith('__')) \
+                or any(isinstance(n, ast.Break) for b in s.body for n in ast.walk(b)) \
+                or not self.an.want_inline_gen(self, f, fr):
+            return None
+        caller = fr
+
+        def sink(y, val):
+            out = []
+            for b in self.assign(s.target, val, y, caller, o, s):
+                r = self.exec_block(s.body, [b], caller)
+                out += r.nxt + r.cont
+                o.ret += r.ret
+                o.exc += r.exc
+            return out
+        sinks = self.__dict__.setdefault('_ysinks', [])
+        sinks.append((f, fr.depth + 1, sink))
+        try:
+            res = self.inline(f, None, (), (), None, x, fr, o, s, bindings=it[2])
+        finally:
+            sinks.pop()
+        return [y for y, _v in res]
 
     def _yield_loop(self, e):
         """`yield from (elt for x in it if c)` and `yield from filter(f, it)` are the loops
@@ -2132,9 +2214,10 @@ class Interp:
             if none is not None:
                 res.append((none.note(self.where(e, fr), "next(): no element qualifies"), args[1]))
             return res
-        if fterm[0] == 'call' and fterm[1] in ('functools.partial', 'partial') and fterm[2] and not fterm[3]:
-            # functools.partial(f, a, b)(c)  is  f(a, b, c)
-            return self.call(e, fterm[2][0], tuple(fterm[2][1:]) + tuple(args), kws, st, fr, o)
+        if fterm[0] == 'call' and fterm[1] in ('functools.partial', 'partial') and fterm[2]:
+            # functools.partial(f, a, k=v)(c)  is  f(a, c, k=v)
+            return self.call(e, fterm[2][0], tuple(fterm[2][1:]) + tuple(args), tuple(fterm[3]) + tuple(kws),
+                             st, fr, o)
         self.calls_seen += 1
         r = self.an.on_call(self, e, fterm, args, kws, st, fr)
         if r is not None:
@@ -2184,6 +2267,30 @@ class Interp:
                 return [(st, r if r is not None else T.cap(('attr', args[0], args[1][1]), 'getattr'))]
             if short in ('set', 'list', 'BestSet', 'tuple', 'frozenset', 'dict', 'OrderedSet') and not args and not kws:
                 return [(st, EMPTY)]
+            if short in ('map', 'starmap') and len(args) == 2 and not kws and args[0][0] in ('attr', 'func', 'closure') \
+                    and getattr(e, 'lineno', None) is not None:
+                # map(f, S) is (f(x) for x in S); starmap(f, S) is (f(*x) for x in S)
+                g, _recv, gk = self.resolve(args[0], fr, e)
+                if gk == 'func' and not g.is_async and not g.is_generator:
+                    key = T.mk(('comp', e.lineno, e.col_offset, fr.fid))
+                    elem = T.mk(('elem', args[1], key))
+                    if short == 'map':
+                        a2 = (elem,)
+                    else:
+                        n_par = len(g.params) - (0 if (g.is_static or g.cls is None) else 1)
+                        # the receiver is explicit when the function is reached through its class
+                        a2 = tuple(T.mk(('item', elem, i)) for i in range(max(n_par, 0)))
+                    out = []
+                    for y, v in self.call(e, args[0], a2, (), st, fr, o):
+                        out.append((y, T.cap(('comp', 'gen', v, ((key, args[1], ()),)), 'comp')))
+                    if out:
+                        return out
+            if short == 'sum' and len(args) == 1 and not kws and args[0][0] == 'comp' and len(args[0]) == 4 \
+                    and args[0][2] == ('const', 1):
+                # sum(1 for x in S if c(x)) counts the elements that qualify
+                c = args[0]
+                counted = ('comp', 'list', ('elem', c[3][-1][1], c[3][-1][0]), c[3]) if len(c[3]) == 1 else c
+                return [(st, T.cap(('call', 'len', (counted,), ()), 'call'))]
             if short in ('set', 'list', 'tuple', 'BestSet', 'frozenset', 'sorted', 'OrderedSet') and len(args) == 1:
                 return [(st, ('call', 'sorted' if short == 'sorted' else 'set' if short in ('BestSet', 'OrderedSet', 'frozenset') else short, args, kws))]
             return [(st, T.cap(('call', callee, args, kws), 'call'))]
